@@ -374,3 +374,82 @@ def tolerates(n, names=('OSError', 'IOError', 'EnvironmentError',
                             for a in ce.args):
                     return True
     return False
+
+
+class Nullness:
+    """Path-sensitive tracking of whether a local is None, for locals that
+    are assigned from an inlined helper with several returns
+    (`x = self._next()`; `while x is not None:`).  Use as a component of a
+    typestate: st = nul.step(node, label, st) returns the new component or
+    the string 'infeasible'.  Component: dict-like frozenset of
+    (var path, 'none'|'obj') plus ('$ret', ...) for the value in flight."""
+
+    def __init__(self, g):
+        import ast as _ast
+        from ..facts import path_of
+        self.g = g
+        self.assign_of_call = {}     # id(call ast) -> var path
+        for n in g.of_kind('stmt'):
+            if isinstance(n.ast, _ast.Assign) and \
+                    isinstance(n.ast.value, _ast.Call) and \
+                    len(n.ast.targets) == 1 and \
+                    isinstance(n.ast.targets[0], _ast.Name):
+                self.assign_of_call[id(n.ast.value)] = (
+                    path_of(n.ast.targets[0], n.frame), n)
+
+    @staticmethod
+    def _set(st, key, val):
+        return frozenset((k, v) for k, v in st if k != key) | (
+            frozenset([(key, val)]) if val is not None else frozenset())
+
+    @staticmethod
+    def _get(st, key):
+        for k, v in st:
+            if k == key:
+                return v
+        return None
+
+    def step(self, n, label, st):
+        import ast as _ast
+        from ..facts import atoms_of_test
+        if isinstance(label, tuple):
+            return st
+        if n.kind == 'stmt' and isinstance(n.ast, _ast.Return) and \
+                n.frame.call is not None and \
+                id(n.frame.call) in self.assign_of_call:
+            v = n.ast.value
+            if v is None or (isinstance(v, _ast.Constant) and
+                             v.value is None):
+                return self._set(st, '$ret', 'none')
+            if isinstance(v, (_ast.Call, _ast.Tuple, _ast.List, _ast.Dict)) \
+                    or (isinstance(v, _ast.Constant) and v.value is not None):
+                # a call result is not known to be None; containers and
+                # non-None constants are objects
+                kind = 'obj' if not isinstance(v, _ast.Call) else 'obj?'
+                return self._set(st, '$ret', kind)
+            return self._set(st, '$ret', None)
+        if n.kind == 'stmt' and isinstance(n.ast, _ast.Assign) and \
+                id(n.ast.value) in self.assign_of_call:
+            var, node = self.assign_of_call[id(n.ast.value)]
+            if node is n:
+                r = self._get(st, '$ret')
+                st = self._set(st, '$ret', None)
+                return self._set(st, var, r)
+        if n.kind == 'stmt' and isinstance(n.ast, _ast.Assign):
+            from ..facts import path_of
+            for t in n.ast.targets:
+                if isinstance(t, _ast.Name):
+                    st = self._set(st, path_of(t, n.frame), None)
+        if n.kind == 'test' and label in ('T', 'F'):
+            for pol, k in atoms_of_test(n.ast, label == 'T', n.frame):
+                for var, val in list(st):
+                    if var.startswith('$') or val not in ('none', 'obj'):
+                        continue
+                    if k == var + ' is None':
+                        if (val == 'none') != pol:
+                            return 'infeasible'
+                    elif k == var:
+                        # truthiness: None is falsy
+                        if val == 'none' and pol:
+                            return 'infeasible'
+        return st
